@@ -31,6 +31,7 @@ http://www.musicxml.org/xml.html
 from __future__ import absolute_import
 
 import datetime
+from fractions import Fraction
 from functools import reduce
 from xml.dom.minidom import Document
 
@@ -103,11 +104,17 @@ def _bar2musicxml(bar):
     # bar attributes
     attributes = doc.createElement("attributes")
 
-    # calculate divisions by using the LCM
-    l = []
+    # calculate the length of every entry in quarter notes (dots and tuplets
+    # included) and use the LCM of the denominators as divisions
+    lengths = []
     for nc in bar:
-        l.append(int(value.determine(nc[1])[0]))
-    lcm = _lcm(terms=l) * 4
+        (base, dots, rat1, rat2) = value.determine(nc[1])
+        lengths.append(
+            Fraction(4) / Fraction(base) * (2 - Fraction(1, 2 ** dots)) * Fraction(rat2, rat1)
+        )
+    lcm = 1
+    for length in lengths:
+        lcm = lcm * length.denominator // _gcd(lcm, length.denominator)
     divisions = doc.createElement("divisions")
     divisions.appendChild(doc.createTextNode(str(lcm)))
     attributes.appendChild(divisions)
@@ -131,7 +138,7 @@ def _bar2musicxml(bar):
     time.appendChild(beattype)
     attributes.appendChild(time)
     bar_node.appendChild(attributes)
-    for nc in bar:
+    for (entry, nc) in enumerate(bar):
         time = value.determine(nc[1])
         beat = time[0]
         note_cont = nc[2]
@@ -149,7 +156,7 @@ def _bar2musicxml(bar):
 
             # convert the duration of the note
             duration = doc.createElement("duration")
-            duration.appendChild(doc.createTextNode(str(int(lcm * (4.0 / beat)))))
+            duration.appendChild(doc.createTextNode(str(int(lengths[entry] * lcm))))
             note.appendChild(duration)
 
             # check for dots
